@@ -162,6 +162,40 @@ def govBlock (specs : List (Nat × Option Nat × Bool)) : String :=
     s!"{statusOf r.2.outer p}:{paidOf e r.2.outer p (specs.getD p (0, none, false)).1}")
   s!"flow={flowStr r.1} " ++ " ".intercalate per
 
+/-- `pgovh <n:f:kind:hook> …`: a block of proposals with the `AfterProposalVotingPeriodEnded` hook doing nothing (`-`),
+writing and succeeding (`ok`) or writing and FAILING (`fail`) per proposal; third field of the answer: are the hook's
+writes in the state -/
+def govBlockH (specs : List ((Nat × Option Nat × Bool) × String)) : String :=
+  let hookName := "keeper.Hooks().AfterProposalVotingPeriodEnded"
+  let e := govEnv (specs.map (·.1))
+  let e := (List.range specs.length).foldl (fun e p =>
+    if (specs.getD p ((0, none, false), "-")).2 == "fail" then failAt e hookName p else e) e
+  let r := run e govProg
+  let per := (List.range specs.length).map (fun p =>
+    let sp := specs.getD p ((0, none, false), "-")
+    let hw := r.2.outer.any (fun t => t.name == hookName && t.iter == p) && sp.2 != "-"
+    s!"{statusOf r.2.outer p}:{paidOf e r.2.outer p sp.1.1}:{b01 hw}")
+  s!"flow={flowStr r.1} " ++ " ".intercalate per
+
+def parseSpecH (w : String) : Option ((Nat × Option Nat × Bool) × String) :=
+  match w.splitOn ":" with
+  | [n, f, k, h] => (parseSpec s!"{n}:{f}:{k}").bind (fun sp => if h == "-" || h == "ok" || h == "fail" then some (sp, h) else none)
+  | _ => none
+
+/-- `pinact <-|ok|fail> …`: a block of INACTIVE proposals (deposit period ended below the minimum deposit), the
+`AfterProposalFailedMinDeposit` hook per proposal as above -/
+def inactive (modes : List String) : Option String :=
+  if modes.all (fun m => m == "-" || m == "ok" || m == "fail") then
+    let hookName := "keeper.Hooks().AfterProposalFailedMinDeposit"
+    let e : Env := { baseEnv [] 0 with iters := fun _ _ => modes.length }
+    let e := (List.range modes.length).foldl (fun e p => if modes.getD p "-" == "fail" then failAt e hookName p else e) e
+    let r := run e govInactiveProg
+    let per := (List.range modes.length).map (fun p =>
+      b01 (r.2.outer.any (fun t => t.name == hookName && t.iter == p) && modes.getD p "-" != "-"))
+    let deleted := count r.2.outer "keeper.DeleteProposal #2"
+    if deleted == modes.length then some (s!"flow={flowStr r.1} hooks=" ++ ",".intercalate per) else some s!"flow={flowStr r.1} deleted={deleted}"
+  else none
+
 /-- `pxc <ok|fail>`: the executeClaim precompile method around the keeper's ExecuteClaim -/
 def xc (ok : Bool) : String :=
   let e := baseEnv ["Run: has"] 0
@@ -197,7 +231,7 @@ def bci (ntok : Nat) (pre conv : Option Nat) (isContract memoCall : Bool) (call 
 
 /-- `pibc <app ok|err> <fx 0|1> <evmaddr 0|1> <conv ok|err|-> <memo none|nojson|invalid|othertype|call> <call>` -/
 def ibc (app : String) (fx evmaddr : Bool) (conv memo call : String) : String :=
-  let conds := ["RecvPacket: ok", "RecvPacket: ack != nil", "Keeper.OnRecvPacket: ok"]
+  let conds := ["RecvPacket: ok", "Keeper.OnRecvPacket: ok"]
     ++ (if fx then [] else ["Keeper.OnRecvPacket: receiveCoin.GetDenom() != fxtypes.DefaultDenom"])
     ++ (if evmaddr then ["Keeper.OnRecvPacket: isEvmAddr"] else [])
     ++ (if memo == "none" then [] else ["Keeper.OnRecvPacket: len(data.Memo) > 0"])
@@ -254,6 +288,14 @@ def step (st : Unit) (line : String) : Unit × String :=
   | "pgovb" :: specs =>
     match specs.mapM P.parseSpec with
     | some sp => ((), P.govBlock sp)
+    | none => ((), "bad-op")
+  | "pgovh" :: specs =>
+    match specs.mapM P.parseSpecH with
+    | some sp => ((), P.govBlockH sp)
+    | none => ((), "bad-op")
+  | "pinact" :: modes =>
+    match P.inactive modes with
+    | some r => ((), r)
     | none => ((), "bad-op")
   | ["pxc", ok] => ((), P.xc (ok == "ok"))
   | ["pbci", ntok, pre, conv, isc, memo, call, same, zero, rok] =>
